@@ -15,6 +15,7 @@ import (
 	"net/http"
 	"time"
 
+	"github.com/saucelabs/forwarder/internal/martian/mitm"
 	"github.com/saucelabs/forwarder/internal/vfrt"
 )
 
@@ -362,4 +363,47 @@ func vfH_C15_stalled_peer() {
 	if !inTime {
 		<-served
 	}
+}
+
+//vf:assume C15-mitm-handshake: a CONNECT that is MITM'd, with crypto/tls modelled as a transparent layer (8.10, so model-only): the 200 reply is written, the client's hello (one TLS record) arrives in a later segment, then one inner request; the MITM handshake timeout is a symbolic duration in [0, 2^40) ns; the deadline of the context that bounds the handshake is compared with the clock readings the connection took: it is never earlier than the limit counted from the moment the 200 reply was written (the earliest moment the handshake phase can be said to begin) and never later than the limit counted from the first event after the hello's first byte was delivered; limit 0 means no deadline
+
+//vf:harness property=C15 nopanic modelonly reach=mitm-handshake-timed,mitm-handshake-unlimited steps=8000000
+func vfH_C15_mitm_handshake() {
+	p := &Proxy{}
+	p.TestingSkipRoundTrip = true
+	p.MITMConfig = &mitm.Config{}
+	p.init()
+	p.MITMTLSHandshakeTimeout = vfDur("mitm-tls-handshake-timeout")
+	head := "CONNECT example.com:443 HTTP/1.1\r\nHost: example.com:443\r\n\r\n"
+	conn := &vfTimedConn{VfConn: NewVfConn([]byte(head + "\x16\x03\x01\x00\x03abc" + "GET / HTTP/1.1\r\nHost: example.com\r\n\r\n"))}
+	conn.Chunk = len(head) // the hello arrives in a later segment than the CONNECT
+	p.handleLoop(conn)
+	deadline, has := vfrt.TLSHandshakeDeadline()
+	limit := p.MITMTLSHandshakeTimeout
+	// the event log: reads of the CONNECT, the write of the 200 reply, the read that delivers the hello, ...
+	wrote, hello := -1, -1
+	for i, e := range conn.events {
+		if e.kind == 'w' && wrote < 0 {
+			wrote = i
+		}
+		if e.kind == 'r' && wrote >= 0 && hello < 0 {
+			hello = i
+		}
+	}
+	vfrt.Assert(wrote >= 0 && hello > wrote && hello+1 < len(conn.events), "mitm-handshake/reply-then-hello-then-more")
+	if wrote < 0 || hello < 0 || hello+1 >= len(conn.events) {
+		return
+	}
+	if limit == 0 {
+		vfrt.Reach("mitm-handshake-unlimited")
+		vfrt.Assert(!has, "mitm-handshake/no-limit-means-no-deadline")
+		return
+	}
+	vfrt.Reach("mitm-handshake-timed")
+	vfrt.Assert(has, "mitm-handshake/handshake-bounded-by-the-configured-limit")
+	if !has {
+		return
+	}
+	vfrt.Assert(!deadline.Before(conn.events[wrote].at.Add(limit)), "mitm-handshake/deadline-never-earlier-than-the-limit-from-the-start-of-the-handshake-phase")
+	vfrt.Assert(!deadline.After(conn.events[hello+1].at.Add(limit)), "mitm-handshake/deadline-not-later-than-the-limit-from-the-hello")
 }
